@@ -42,10 +42,16 @@ def _short(a):
     return r if len(r) <= 60 else "..." + r[-57:]
 
 
-class Injector:
-    """fail_at=None: count only. fail_at=k: the k-th counted operation raises OSError."""
+class AbortSignal(BaseException):
+    """an interruption that is not an Exception (what a signal handler of the calling application raises: a time limit,
+    Ctrl-C ...): the clean-up duties of the library are the same"""
 
-    def __init__(self, fail_at=None):
+
+class Injector:
+    """fail_at=None: count only. fail_at=k: the k-th counted operation raises OSError (abort=True: AbortSignal)."""
+
+    def __init__(self, fail_at=None, abort=False):
+        self.abort = abort
         self.fail_at = fail_at
         self.count = 0
         self.log = []          # (index, opname, short arg)
@@ -85,6 +91,8 @@ class Injector:
                     inj.log.append((idx, opname, _short(a[0]) if a else ""))
                     if idx == inj.fail_at:
                         inj.fired = (idx, opname, a[0] if a else None)
+                        if inj.abort:
+                            raise AbortSignal("injected")
                         raise OSError(INJECTED_ERRNO, "injected")
             return orig(*a, **kw)
         wrapper.__name__ = getattr(orig, "__name__", opname)
@@ -604,6 +612,8 @@ def sc_verify(params, seed, big):
         settings = {}
         if params["bp"] == "setting":
             settings["ARTIFACT_BASE_PATH"] = bp
+        elif params["bp"] == "setting_empty":
+            settings["ARTIFACT_BASE_PATH"] = ""           # falsy but not None: "no base path", and it stays what it was
         elif params["bp"] == "setting_missing":
             settings["ARTIFACT_BASE_PATH"] = os.path.join(wd, "no-such-dir")
         kw = {"link_dir_path": linkdir}
